@@ -1,10 +1,14 @@
 import FcpptModel.Prelude.Proto
 import FcpptModel.Spec.C02
+import FcpptModel.Model.C02.Typed
 /-!
 Driver for C02.  Protocol: notes/C02-protocol.md.
 
 * `run  <ce> <sk> <grammar> =<input>`            → `ok <val>` | `fail` | `fatal` | `diverge`
+  (stream entry points `s`, `r`: ` @<offset the stream is left at>` appended)
 * `enum <ce> <sk> <grammar> =<alphabet> <maxlen>` → `D <digest> n=.. ok=.. fail=.. fatal=..`
+* `typed  <ce> <sk> <grammar> =<input>` / `tenum …` → the same for the statically typed instantiation of the grammar:
+  `ok <type> <typed value>` where the typed value is `flat` of the model's universal value
 
 The answer is computed by the implementation-level model `M.parseString` (which the theorems of
 `FcpptProofs/Props/C02.lean` relate to the documented semantics).
@@ -13,7 +17,7 @@ namespace Fcppt.C02.Drv
 open Fcppt.Proto
 
 def decodeChar (wide : Bool) (c : Char) : Nat :=
-  if c = '_' then 32 else if c = '/' then 10 else if c = '^' then 9
+  if c = '_' then 32 else if c = '/' then 10 else if c = '^' then 9 else if c = '!' then 46
   else if c = '@' then (if wide then 0x263A else 64) else c.toNat
 
 def decode (wide : Bool) (s : String) : List Nat := s.toList.map (decodeChar wide)
@@ -37,22 +41,47 @@ def nameParam (t : String) : String × Option String :=
   | [n, p] => (n, some p)
   | _ => ("?", none)
 
-/-- prefix-notation parser; `nrules` bounds `ref:<i>` -/
-def parseP (wide : Bool) (nrules : Nat) : Nat → List String → Option (P × List String)
+/-- the constant of a `cst:` node: `i<digits>` or `c<char>` -/
+def parseConst (wide : Bool) (p : String) : Option Val :=
+  match p.toList with
+  | 'i' :: ds => match (String.ofList ds).toNat? with
+    | some n => if ds.length ≤ 4 then some (.int n) else none
+    | none => none
+  | ['c', c] => some (.ch (decodeChar wide c))
+  | 's' :: cs => some (cs.foldr (fun c acc => .cons (.ch (decodeChar wide c)) acc) .nil)
+  | _ => none
+
+/-- prefix-notation parser; `nrules` bounds `ref:<i>`.  `typed`: the grammar is instantiated with its natural result
+types (no `ignore` is put around the operands of `not` / `sep` / `list` / `cst`, they must be unit-typed themselves where
+the C++ demands it); otherwise every node has the result `Val` and the harness wraps those operands in `ignore`. -/
+def parseP (typed wide : Bool) (nrules : Nat) : Nat → List String → Option (P × List String)
   | 0, _ => none
   | _, [] => none
   | fuel+1, t :: ts =>
     let un (k : P → P) : Option (P × List String) :=
-      match parseP wide nrules fuel ts with
+      match parseP typed wide nrules fuel ts with
       | some (a, r) => some (k a, r)
       | none => none
     let bin (k : P → P → P) : Option (P × List String) :=
-      match parseP wide nrules fuel ts with
-      | some (a, r) => match parseP wide nrules fuel r with
-        | some (b, r') => some (k a b, r')
-        | none => none
+      match parseP typed wide nrules fuel ts with
+      | some (a, r) =>
+        -- `same`: the second operand is the very same parser object as the first (typed family only)
+        match r with
+        | "same" :: r' => if typed then some (k a a, r') else none
+        | _ => match parseP typed wide nrules fuel r with
+          | some (b, r') => some (k a b, r')
+          | none => none
       | none => none
     match nameParam t with
+    -- how the operand is handed to the enclosing combinator (a copy of a named parser object, by fcppt::reference, by
+    -- base_unique_ptr): no effect on the semantics
+    | ("copy", none) => if typed then un id else none
+    | ("cref", none) => if typed then un id else none
+    | ("box", none) => if typed then un id else none
+    -- fcppt::parse::space() / blank() / digits<Ch>()
+    | ("spc", none) => some (.cset [32, 10, 9], ts)
+    | ("blk", none) => some (.cset [32, 9], ts)
+    | ("dig", none) => some (.cset digits, ts)
     | ("eps", none) => some (.eps, ts)
     | ("fail", none) => some (.fail, ts)
     | ("any", none) => some (.any, ts)
@@ -64,50 +93,67 @@ def parseP (wide : Bool) (nrules : Nat) : Nat → List String → Option (P × L
     | ("str", some p) => some (.str (decode wide p), ts)
     | ("uint", none) => some (.uint 65535, ts)
     | ("int", none) => some (.int 32767, ts)
+    | ("float", none) => some (.float, ts)
     | ("seq", none) => bin .seq
     | ("alt", none) => bin .alt
-    | ("sep", none) => bin (fun a b => .sep a (.ignore b))
+    | ("sep", none) => bin (fun a b => .sep a (if typed then b else .ignore b))
     | ("rep", none) => un .rep
     | ("plus", none) => un .plus
     | ("opt", none) => un .opt
-    | ("not", none) => un (fun a => .not (.ignore a))
+    | ("not", none) => un (fun a => .not (if typed then a else .ignore a))
     | ("fatal", none) => un .fatal
     | ("lex", none) => un .lexeme
     | ("ign", none) => un .ignore
     | ("named", none) => un .named
-    | ("rec", none) => un (.conv 9)
+    | ("rec", none) => if typed then un id else un (.conv 9)    -- typed: fcppt::recursive<T> is printed as T
     | ("conv", some k) => match k.toNat? with
-      | some k => if k < 3 then un (.conv k) else none
+      | some k => if k < 3 ∧ !typed then un (.conv k) else none
       | none => none
     | ("cif", some k) => match k.toNat? with
-      | some k => if k < 3 then un (.convIf k) else none
+      | some k => if k < 3 ∧ !typed then un (.convIf k) else none
       | none => none
     | ("ref", some i) => match i.toNat? with
       | some i => if i < nrules then some (.ref i, ts) else none
       | none => none
+    | ("con", some k) => match k.toNat? with
+      | some k => if 20 ≤ k ∧ k < 30 then un (.map (.construct k)) else none
+      | none => none
+    | ("ast", some k) => match k.toNat? with
+      | some k =>
+        if 30 ≤ k ∧ k < 40 then
+          -- as_struct needs a tuple: in the `Val` world that is exactly a sequence node
+          match parseP typed wide nrules fuel ts with
+          | some (.seq a b, r) => some (.map (.asStruct k) (.seq a b), r)
+          | some (a, r) => if typed then some (.map (.asStruct k) a, r) else none
+          | none => none
+        else none
+      | none => none
+    | ("cst", some c) => match parseConst wide c with
+      | some c => un (fun a => .map (.const c) (if typed then a else .ignore a))
+      | none => none
     | ("list", none) =>
-      match parseP wide nrules fuel ts with
-      | some (o, r1) => match parseP wide nrules fuel r1 with
-        | some (a, r2) => match parseP wide nrules fuel r2 with
-          | some (s, r3) => match parseP wide nrules fuel r3 with
-            | some (c, r4) => some (.list (.ignore o) a (.ignore s) (.ignore c), r4)
+      match parseP typed wide nrules fuel ts with
+      | some (o, r1) => match parseP typed wide nrules fuel r1 with
+        | some (a, r2) => match parseP typed wide nrules fuel r2 with
+          | some (s, r3) => match parseP typed wide nrules fuel r3 with
+            | some (c, r4) => some (if typed then .list o a s c else .list (.ignore o) a (.ignore s) (.ignore c), r4)
             | none => none
           | none => none
         | none => none
       | none => none
     | _ => none
 
-def parseRule (wide : Bool) (nrules : Nat) (r : String) : Option P :=
+def parseRule (typed wide : Bool) (nrules : Nat) (r : String) : Option P :=
   let toks := r.splitOn "."
   if toks.all (fun t => okParam ((nameParam t).2.getD "")) then
-    match parseP wide nrules (toks.length + 1) toks with
+    match parseP typed wide nrules (toks.length + 1) toks with
     | some (p, []) => some p
     | _ => none
   else none
 
-def parseGrammar (wide : Bool) (t : String) : Option (List P) :=
+def parseGrammar (typed wide : Bool) (t : String) : Option (List P) :=
   let rs := t.splitOn ";"
-  rs.mapM (parseRule wide rs.length)
+  rs.mapM (parseRule typed wide rs.length)
 
 def isList : Val → Bool
   | .nil => true
@@ -146,6 +192,7 @@ partial def showVal : Val → String
   | .inl v => "L(" ++ showVal v ++ ")"
   | .inr v => "R(" ++ showVal v ++ ")"
   | .tag k v => s!"T{k}(" ++ showVal v ++ ")"
+  | .flt b => s!"f{b}"
 where
   showTail : Val → String
     | .nil => "]"
@@ -154,12 +201,102 @@ where
 
 def fuel : Nat := 3000
 
-def runLine (g : G) (p : P) (sk : Sk) (inp : List Nat) : String :=
-  match M.parseString g fuel p sk inp with
-  | none => "diverge"
-  | some (.ok v) => "ok " ++ showVal v
-  | some (.err false) => "fail"
-  | some (.err true) => "fatal"
+def showTop : Top → String
+  | .ok v => "ok " ++ showVal v
+  | .err false => "fail"
+  | .err true => "fatal"
+
+/-- `stream`: the entry points without `consume_remaining`; the offset the stream is left at is part of the answer -/
+def runLine (stream : Bool) (g : G) (p : P) (sk : Sk) (inp : List Nat) : String :=
+  if stream then
+    match M.parseStream g fuel p sk inp with
+    | none => "diverge"
+    | some (t, q) => showTop t ++ s!" @{q}"
+  else
+    match M.parseString g fuel p sk inp with
+    | none => "diverge"
+    | some t => showTop t
+
+/-! ### the typed instantiation -/
+
+mutual
+partial def showTy : Ty → String
+  | .unit => "U" | .ch => "C" | .uint => "N" | .int => "I" | .flt => "F" | .str => "S"
+  | .vec t => "V(" ++ showTy t ++ ")"
+  | .opt t => "O(" ++ showTy t ++ ")"
+  | .tup ts => "T(" ++ showTyL ts ++ ")"
+  | .var ts => "A(" ++ showTyL ts ++ ")"
+  | .named k => s!"K{k}"
+partial def showTyL : TyL → String
+  | .nil => ""
+  | .cons t .nil => showTy t
+  | .cons t ts => showTy t ++ "," ++ showTyL ts
+end
+
+mutual
+partial def showTVal : TVal → String
+  | .unit => "u"
+  | .ch c => s!"c{c}"
+  | .uint n => s!"n{n}"
+  | .int i => s!"i{i}"
+  | .flt b => s!"f{b}"
+  | .str cs => "s[" ++ ",".intercalate (cs.map toString) ++ "]"
+  | .vec vs => "v[" ++ showTValL vs ++ "]"
+  | .none => "N"
+  | .some v => "S(" ++ showTVal v ++ ")"
+  | .tup vs => "t(" ++ showTValL vs ++ ")"
+  | .inj i v => s!"a{i}(" ++ showTVal v ++ ")"
+  | .struct k v => s!"k{k}(" ++ showTVal v ++ ")"
+partial def showTValL : TValL → String
+  | .nil => ""
+  | .cons v .nil => showTVal v
+  | .cons v vs => showTVal v ++ "," ++ showTValL vs
+end
+
+/-- the payload types of the structs of a grammar: `con:k.a` / `ast:k.a` declare struct `k` over the result type of `a`
+(inner structs first) -/
+def collectDefs (ruleTy : Nat → Ty) : P → (Nat → Ty) → (Nat → Ty)
+  | .seq a b, d | .alt a b, d | .sep a b, d => collectDefs ruleTy b (collectDefs ruleTy a d)
+  | .rep a, d | .opt a, d | .not a, d | .fatal a, d | .lexeme a, d | .conv _ a, d | .convIf _ a, d
+  | .ignore a, d | .named a, d | .plus a, d | .map (.const _) a, d => collectDefs ruleTy a d
+  | .list o a s c, d => collectDefs ruleTy c (collectDefs ruleTy s (collectDefs ruleTy a (collectDefs ruleTy o d)))
+  | .map (.construct k) a, d | .map (.asStruct k) a, d =>
+    let d' := collectDefs ruleTy a d
+    match typeOf { ruleTy := ruleTy, defs := d' } a with
+    | some t => fun j => if j = k then t else d' j
+    | none => d'
+  | _, d => d
+
+/-- The environment of a typed grammar: a rule `con:k. …` has the declared type struct `k` (that is how a recursive result
+type is written in C++), the type of every other rule is computed from its body (two rounds, so that such a rule may refer
+to `con` rules and to rules computed in the first round).  This is glue, not trusted: `typedLine` checks `WT` by evaluation. -/
+def mkEnv (rules : List P) : TEnv :=
+  let named : Nat → Ty := fun i => match rules[i]? with
+    | some (.map (.construct k) _) => .named k
+    | _ => .unit
+  let defsOf (ruleTy : Nat → Ty) : Nat → Ty := rules.foldl (fun d r => collectDefs ruleTy r d) (fun _ => .unit)
+  let round (ruleTy : Nat → Ty) : Nat → Ty := fun i => match rules[i]? with
+    | some (.map (.construct k) _) => .named k
+    | some r => (typeOf { ruleTy := ruleTy, defs := defsOf ruleTy } r).getD .unit
+    | none => .unit
+  let ruleTy := round (round named)
+  { ruleTy := ruleTy, defs := defsOf ruleTy }
+
+def typedLine (rules : List P) (g : G) (p : P) (sk : Sk) (inp : List Nat) : String :=
+  let E := mkEnv rules
+  -- `WT`: every rule has its declared type
+  if !(List.range rules.length).all (fun i => typeOf E (rules.getD i .fail) == some (E.ruleTy i)) then "ill-typed" else
+  match typeOf E p with
+  | none => "ill-typed"
+  | some τ =>
+    match M.parseString g fuel p sk inp with
+    | none => "diverge"
+    | some (.ok v) =>
+      (match flat E g fuel p v with
+       | some tv => "ok " ++ showTy τ ++ " " ++ showTVal tv
+       | none => "stuck")
+    | some (.err false) => "fail"
+    | some (.err true) => "fatal"
 
 def strings (alpha : List Nat) : Nat → List (List Nat)
   | 0 => [[]]
@@ -173,44 +310,53 @@ structure Acc where
   fatal : Nat := 0
   other : Nat := 0
 
-def enumLine (g : G) (p : P) (sk : Sk) (alpha : List Nat) (maxlen : Nat) : String :=
+def enumLine (one : List Nat → String) (alpha : List Nat) (maxlen : Nat) : String :=
   let acc := (List.range (maxlen + 1)).foldl (fun (acc : Acc) len =>
     (strings alpha len).foldl (fun (acc : Acc) inp =>
-      let l := runLine g p sk inp
+      let l := one inp
       let acc := { acc with h := fnv acc.h (l ++ "\n"), n := acc.n + 1 }
       if l.startsWith "ok" then { acc with ok := acc.ok + 1 }
-      else if l = "fail" then { acc with fail := acc.fail + 1 }
-      else if l = "fatal" then { acc with fatal := acc.fatal + 1 }
+      else if l.startsWith "fail" then { acc with fail := acc.fail + 1 }
+      else if l.startsWith "fatal" then { acc with fatal := acc.fatal + 1 }
       else { acc with other := acc.other + 1 }) acc) ({} : Acc)
   s!"D {hex64 acc.h} n={acc.n} ok={acc.ok} fail={acc.fail} fatal={acc.fatal}" ++
     (if acc.other = 0 then "" else s!" other={acc.other}")
 
-/-- common front part of both ops: char type + entry point, skipper, grammar -/
-def setup (ce sk gr : String) : Option (Bool × Sk × G × P) :=
+/-- common front part of the ops: char type + entry point, skipper, grammar; the Bool of the result: stream entry point -/
+def setup (typed : Bool) (ce sk gr : String) : Option (Bool × Bool × Sk × G × P × List P) :=
   match ce.toList with
   | [c, e] =>
-    if (c = 'c' ∨ c = 'w') ∧ (e = 'p' ∨ e = 'h' ∨ e = 'g') then
+    if (c = 'c' ∨ c = 'w') ∧ (e = 'p' ∨ e = 'h' ∨ e = 'g' ∨ e = 's' ∨ e = 'r' ∨ e = 'q' ∨ e = 't') ∧ (typed → (e = 'p' ∨ e = 'h' ∨ e = 'g')) then
       let wide := c = 'w'
-      match parseSk wide sk, parseGrammar wide gr with
+      match parseSk wide sk, parseGrammar typed wide gr with
       | some sk, some (p :: rs) =>
-        if e = 'p' ∧ sk ≠ .eps then none else some (wide, sk, mkG (p :: rs), p)
+        if (e = 'p' ∨ e = 'q' ∨ e = 't') ∧ sk ≠ .eps then none
+        else some (wide, e = 's' ∨ e = 'r' ∨ e = 'q' ∨ e = 't', sk, mkG (p :: rs), p, p :: rs)
       | _, _ => none
     else none
   | _ => none
 
 def handle (toks : List String) : String :=
   match toks with
-  | ["run", ce, sk, gr, inp] =>
-    match setup ce sk gr, inp.toList with
-    | some (wide, sk, g, p), '=' :: cs =>
-      if okParam (String.ofList cs) then runLine g p sk (cs.map (decodeChar wide)) else "bad-op"
-    | _, _ => "bad-op"
-  | ["enum", ce, sk, gr, alpha, maxlen] =>
-    match setup ce sk gr, alpha.toList, maxlen.toNat? with
-    | some (wide, sk, g, p), '=' :: cs, some n =>
-      if okParam (String.ofList cs) ∧ n ≤ 10 ∧ 0 < cs.length ∧ cs.length ≤ 6 then
-        enumLine g p sk (cs.map (decodeChar wide)) n else "bad-op"
-    | _, _, _ => "bad-op"
+  | [op, ce, sk, gr, inp] =>
+    if op = "run" ∨ op = "typed" then
+      match setup (op = "typed") ce sk gr, inp.toList with
+      | some (wide, stream, sk, g, p, rules), '=' :: cs =>
+        if okParam (String.ofList cs) then
+          (if op = "typed" then typedLine rules g p sk (cs.map (decodeChar wide))
+           else runLine stream g p sk (cs.map (decodeChar wide)))
+        else "bad-op"
+      | _, _ => "bad-op"
+    else "bad-op"
+  | [op, ce, sk, gr, alpha, maxlen] =>
+    if op = "enum" ∨ op = "tenum" then
+      match setup (op = "tenum") ce sk gr, alpha.toList, maxlen.toNat? with
+      | some (wide, stream, sk, g, p, rules), '=' :: cs, some n =>
+        if okParam (String.ofList cs) ∧ n ≤ 10 ∧ 0 < cs.length ∧ cs.length ≤ 6 then
+          enumLine (if op = "tenum" then typedLine rules g p sk else runLine stream g p sk) (cs.map (decodeChar wide)) n
+        else "bad-op"
+      | _, _, _ => "bad-op"
+    else "bad-op"
   | _ => "bad-op"
 
 def main : IO Unit := Proto.run handle
